@@ -83,4 +83,86 @@ def wholeField {α} (n : Nat) (G : Nat → α) : List α := (List.range n).map G
 def restrictField {α} (isPoint : Bool) (d : List (List Nat)) (G : Nat → α) (loc : List Nat) : List α :=
   (pieceEntityIndices isPoint d loc).map G
 
+/-! ### axis-aligned decompositions of the three VTK directions (what the structured theorems quantify over)
+
+  `d3` lists, per VTK direction, the number of cells of each piece along that direction.  A flat
+  direction (one layer of points, no cells) is the single entry `0`; a meshed direction has at least
+  one piece and every piece has at least one cell.  The pieces are the locations
+  `locationsIn (piecesShape d3)`; piece `loc3` covers the lattice indices `pieceExtent d3 origin loc3`. -/
+
+def axisOk (ns : List Nat) : Bool := ns == [0] || (!ns.isEmpty && ns.all (0 < ·))
+
+def decompOk (d3 : List (List Nat)) : Bool := d3.length == 3 && d3.all axisOk
+
+def axisMeshed (ns : List Nat) : Bool :=
+  match ns.head? with
+  | some n => decide (0 < n)
+  | none => false
+
+/-- the meshed VTK directions of `d3` -/
+def meshedDirs (d3 : List (List Nat)) : List Nat :=
+  (List.range 3).filter fun dir => axisMeshed (d3.getD dir [])
+
+/-- the decomposition of the meshed directions only: what `StructuredFieldMerger` must be given -/
+def mergerOf (d3 : List (List Nat)) : List (List Nat) := (meshedDirs d3).map (d3.getD · [])
+
+/-- location of the piece `loc3` among the directions `dirs` -/
+def restrictLoc (dirs : List Nat) (loc3 : List Nat) : List Nat := dirs.map (loc3.getD · 0)
+
+/-- the `Extent` of the whole grid -/
+def wholeExtent (d3 : List (List Nat)) (origin : List Int) : List Int :=
+  (List.range 3).flatMap fun dir =>
+    let o := origin.getD dir 0
+    [o, o + (sumList (d3.getD dir []) : Nat)]
+
+/-- the ordinates the piece at position `b` of an axis cut into `ns` carries, `W` = the ordinates of
+    the whole axis: both end points of its range -/
+def pieceOrdinates (W : List Int) (ns : List Nat) (b : Nat) : List Int :=
+  (W.drop (sumList (ns.take b))).take (ns.getD b 0 + 1)
+
+/-- cells per direction of an `Extent` -/
+def cellsOfExtent (e : List Int) : List Int :=
+  (List.range 3).map fun i => e.getD (2 * i + 1) 0 - e.getD (2 * i) 0
+
+/-- what the whole (sequential) file `w` reads as: its extents, its geometry — an image grid starts
+    at the point with the lowest structured index of the file —, its data arrays -/
+def wholeRead (U : Nat) (w : SFile) : SRead :=
+  ⟨match w.geom with
+   | .image O S B => .image (vtiMesh U w.extent O S B)
+   | .rect o => .rect (cellsOfExtent w.extent) o
+   | .struct p => .struct (cellsOfExtent w.extent) p,
+   w.pointFields, w.cellFields⟩
+
+/-- the piece file at `loc3` when the whole file `w` is cut along `d3`: its extent; the image
+    attributes unchanged / its part of every ordinate array / its points; its rows of every data array
+    (same dtype, same entry shape) -/
+def pieceFile (w : SFile) (d3 : List (List Nat)) (origin : List Int) (loc3 : List Nat) : SFile :=
+  let dM := mergerOf d3
+  let loc := restrictLoc (meshedDirs d3) loc3
+  ⟨pieceExtent d3 origin loc3,
+   match w.geom with
+   | .image O S B => .image O S B
+   | .rect o => .rect ((List.range 3).map fun dir =>
+       pieceOrdinates (o.getD dir []) (d3.getD dir []) (loc3.getD dir 0))
+   | .struct p => .struct ((pieceEntityIndices true dM loc).map (p.getD · [])),
+   w.pointFields.map fun f => (f.1, NdArr.takeRows f.2 (pieceEntityIndices true dM loc)),
+   w.cellFields.map fun f => (f.1, NdArr.takeRows f.2 (pieceEntityIndices false dM loc))⟩
+
+/-- an array with `n` entries along axis 0 -/
+def arrOk (n : Nat) (a : NdArr) : Bool :=
+  a.shape.head? == some n && a.data.length == n * a.rowSize
+
+/-- `w` is a whole structured file over the lattice cut by `d3`: extent, geometry of matching size,
+    distinct field names, arrays of matching length -/
+def wholeOk (w : SFile) (d3 : List (List Nat)) (origin : List Int) : Bool :=
+  let np := prodShape (mergedShape true (mergerOf d3))
+  let nc := prodShape (mergedShape false (mergerOf d3))
+  w.extent == wholeExtent d3 origin &&
+  (match w.geom with
+   | .image _ _ _ => true
+   | .rect o => o.length == 3 && (List.range 3).all fun dir => (o.getD dir []).length == sumList (d3.getD dir []) + 1
+   | .struct p => p.length == np) &&
+  nodupStrings (w.pointFields.map (·.1)) && nodupStrings (w.cellFields.map (·.1)) &&
+  w.pointFields.all (fun f => arrOk np f.2) && w.cellFields.all (fun f => arrOk nc f.2)
+
 end Fc.C06.Spec
